@@ -321,8 +321,13 @@ def extract_drivers():
     add("inclinometerPgn", num(m.group(1)), "inclino.rs INCLINOMETER_PGN")
     # encoder state words
     b = body_of(base + "driver/net/encoder.rs", r"message\.state\s*=\s*match\s+state", "encoder state match")
+    found = set()
     for m in re.finditer(r"(0x[0-9a-fA-F]+)\s*=>\s*EncoderState::(\w+)", b):
         add("encoderState" + m.group(2), num(m.group(1)), "encoder.rs ProcessDataMessage::from_frame state word")
+        found.add(m.group(2))
+    need = {"NoError", "GeneralSensorError", "InvalidMUR", "InvalidTMR", "InvalidPreset"}
+    if not need <= found:
+        raise ExtractError("encoder.rs: state words of %s not found as literal match arms" % sorted(need - found))
     # encoder addresses of KueblerEncoder::new
     b = body_of(base + "driver/net/encoder.rs", r"impl\s+KueblerEncoder\s*\{", "impl KueblerEncoder")
     addrs = [num(x) for x in re.findall(r"da\s*==\s*(0x[0-9a-fA-F]+)", b)]
